@@ -100,6 +100,8 @@ def leftNeedsParentheses (self : BinOp) (left : E) : Bool :=
     | .bin lop _ _ =>
       if self.isLeftAssociative then self.precedes lop else !(lop.precedes self)
     | .un _ _ => self.precedesUnaryExpression
+    -- a negative number is written with a leading `-` (`is_written_with_minus_sign`)
+    | .negnum _ => self.precedesUnaryExpression
     | .ifexp _ _ _ => true
     | _ => false
   needs || endsWithIfExpression left || (self == .lt && endsWithTypeCastToTypeName left)
@@ -121,6 +123,7 @@ def unaryNeedsParentheses (operand : E) : Bool :=
 /-- type_cast.rs `TypeCastExpression::needs_parentheses`. -/
 def castNeedsParentheses : E → Bool
   | .bin _ _ _ | .un _ _ | .cast _ _ | .ifexp _ _ _ => true
+  | .negnum _ => true   -- written with a leading `-`
   | _ => false
 
 /-- Token skeleton. Unary and binary minus are the *same* token, as for any lexer. -/
@@ -158,20 +161,6 @@ def printE : E → List Tok
     (if leftNeedsParentheses op l then [.lp] ++ printE l ++ [.rp] else printE l)
       ++ [tokOfBin op]
       ++ (if rightNeedsParentheses op r then [.lp] ++ printE r ++ [.rp] else printE r)
-
-def isNegnum : E → Bool
-  | .negnum _ => true
-  | _ => false
-
-/-- H₂ (finding F23): no negative number literal as the left operand of `^`, nor directly under
-a type assertion. Such nodes only arise through the library API / the data serializer. -/
-def H2 : E → Bool
-  | .atom _ | .negnum _ => true
-  | .paren e => H2 e
-  | .ifexp c a b => H2 c && H2 a && H2 b
-  | .cast e _ => H2 e && !isNegnum e
-  | .un _ x => H2 x
-  | .bin o l r => H2 l && H2 r && !(o == .pow && isNegnum l)
 
 /-- utils.rs `expression_ends_with_prefix`, with `isPfx k` telling whether atom `k` is a prefix
 expression (identifier, call, field, index) or not (number, string, table, function, ...). -/
@@ -214,9 +203,8 @@ def shouldBreakWithSpace (ending next : Nat) : Bool :=
   else if ending == 46 then next == 46 || isDigit next  -- '.' then '.' or digit
   else false
 
-/-- utils.rs `break_concat` and `break_variable_arguments` (identical bodies), on the code
-points of the last pushed string. -/
-def breakConcat (last : List Nat) : Bool :=
+/-- utils.rs `break_variable_arguments`, on the code points of the last pushed string. -/
+def breakVariableArguments (last : List Nat) : Bool :=
   match last.getLast? with
   | some 46 => true
   | _ =>
@@ -224,7 +212,18 @@ def breakConcat (last : List Nat) : Bool :=
     | some c => c == 46 || isDigit c
     | none => false
 
-def breakVariableArguments (last : List Nat) : Bool := breakConcat last
+/-- utils.rs `break_concat`: like `break_variable_arguments`, after stripping one leading `-`
+(a negative number is written with a leading `-`). -/
+def breakConcat (last : List Nat) : Bool :=
+  match last.getLast? with
+  | some 46 => true
+  | _ =>
+    let numeral := match last with
+      | 45 :: rest => rest
+      | l => l
+    match numeral.head? with
+    | some c => c == 46 || isDigit c
+    | none => false
 
 /-- utils.rs `break_minus`. -/
 def breakMinus (last : List Nat) : Bool := last.getLast? == some 45
